@@ -418,26 +418,23 @@ def examine(prop, stream, annot, impl, model, origin, collect):
 
 
 
-Q_TOK = re.compile(r"^q(-?\d+)/(\d+)$")
+Q_SUB = re.compile(r"(?<![A-Za-z0-9])q(-?\d+)/(\d+)(?![0-9])")
 
 
 def q_to_f(line):
-    """`q<num>/<den>` tokens (exact rationals printed by the Rat instance of a driver) -> the nearest binary64 token"""
+    """`q<num>/<den>` (exact rationals printed by the Rat instance of a driver, also inside composite tokens such as
+    `T:q2/1:0:tp`) -> the nearest binary64 token"""
     from fractions import Fraction
-    out = []
-    for t in line.split(" "):
-        m = Q_TOK.match(t)
-        if m:
-            try:
-                x = float(Fraction(int(m.group(1)), int(m.group(2))))
-            except OverflowError:
-                x = float("inf") if int(m.group(1)) > 0 else float("-inf")
-            if x == 0:
-                x = 0.0
-            out.append("f" + str(struct.unpack("<Q", struct.pack("<d", x))[0]))
-        else:
-            out.append(t)
-    return " ".join(out)
+
+    def one(m):
+        try:
+            x = float(Fraction(int(m.group(1)), int(m.group(2))))
+        except OverflowError:
+            x = float("inf") if int(m.group(1)) > 0 else float("-inf")
+        if x == 0:
+            x = 0.0
+        return "f" + str(struct.unpack("<Q", struct.pack("<d", x))[0])
+    return Q_SUB.sub(one, line)
 
 
 def exact_step(stream, annot_lines, impl, model, wdir, tag, collect, tier="quick"):
